@@ -1,6 +1,6 @@
 (* LatticeSound.v — C01: assignability is sound with respect to instance-of. *)
 From Coq Require Import ZArith NArith Bool List Lia.
-From PcoreV Require Import Model.Base Model.Ty Model.Lattice Proofs.LatticeUnfold Proofs.LatticeBasics.
+From PcoreV Require Import Model.Base Model.Ty Model.Lattice Proofs.LatticeUnfold Proofs.LatticeBasics Proofs.StructCount Proofs.LatticeRule.
 Import ListNotations.
 Open Scope Z_scope.
 
@@ -28,8 +28,10 @@ Section Sound.
     - (* Optional *) destruct (nullable a) eqn:En; [|discriminate]. intros x Hx Hi.
       destruct x; try (cbn in Hi; apply (IHb Hg Ha); assumption).
       rewrite <- (nullable_inst rx hs'). exact En.
-    - (* NotUndef *) destruct (nullable b) eqn:En; [apply Hrecv; assumption|].
-      intros x Hx Hi. destruct x; try (cbn in Hi; apply (IHb Hg Ha); assumption). discriminate.
+    - (* NotUndef *) destruct (asg a b) eqn:Eab.
+      + (* a accepts the wrapped type *)
+        intros x Hx Hi. destruct x; try (cbn in Hi; apply (IHb Hg eq_refl); assumption). discriminate.
+      + destruct (nullable b) eqn:En; [apply Hrecv; assumption|discriminate].
   Qed.
 
   Ltac atomic := intros b Hgb Hr; destruct b; cbn in Hr; try discriminate;
@@ -148,20 +150,29 @@ Section Sound.
 
   Lemma recv_pattern rxs : forall b, good b -> recv (TPattern rxs) b = true -> sub (TPattern rxs) b.
   Proof.
-    intros b Hgb Hr. destruct b; try (cbn in Hr; discriminate); intros x Hx Hi; destruct x; try (cbn in Hi; discriminate);
-      cbn in Hr; cbn [Lattice.inst] in *.
-    - (* String *) now rewrite Hr.
-    - (* StringVal *) apply str_eqb_eq in Hi. now subst.
-    - (* Enum *) apply orb_true_iff in Hr. destruct Hr as [Hr|Hr]; [now rewrite Hr|].
-      apply andb_true_iff in Hr. destruct Hr as [Hr Hall]. apply andb_true_iff in Hr. destruct Hr as [Hci Hne].
-      apply length_neqb_nil in Hne. rewrite enum_inst_nonempty in Hi by assumption. apply mem_str_in in Hi.
-      destruct ci; [discriminate|]. rewrite forallb_forall in Hall. rewrite (Hall _ Hi). apply orb_true_r.
-    - (* Pattern *) apply orb_true_iff in Hr. destruct Hr as [Hr|Hr]; [now rewrite Hr|].
-      apply andb_true_iff in Hr. destruct Hr as [Hne Hall]. apply length_neqb_nil in Hne.
-      apply orb_true_iff in Hi. destruct Hi as [Hi|Hi]; [apply length_eqb_nil in Hi; congruence|].
-      apply orb_true_iff. right. unfold matches_any in *. apply existsb_exists in Hi. destruct Hi as (p & Hp & Hm).
-      rewrite forallb_forall in Hall. specialize (Hall _ Hp). apply mem_str_in in Hall.
-      apply existsb_exists. eauto.
+    intros b Hgb Hr. destruct rxs as [|r0 rxs].
+    - destruct b; try (cbn in Hr; discriminate); intros x Hx Hi; destruct x; try (cbn in Hi; discriminate); reflexivity.
+    - assert (Hl : Nat.eqb (length (r0 :: rxs)) 0 = false) by reflexivity.
+      remember (r0 :: rxs) as l eqn:El.
+      assert (Hrecv : recv (TPattern l) b =
+                match b with
+                | TPattern rxs' => negb (Nat.eqb (length rxs') 0) && forallb (fun p => mem_str p l) rxs'
+                | TStringVal s => matches_any rx l s
+                | TEnum ci vs => negb ci && negb (Nat.eqb (length vs) 0) && forallb (matches_any rx l) vs
+                | _ => false
+                end) by (subst l; reflexivity).
+      rewrite Hrecv in Hr. clear Hrecv.
+      destruct b; try discriminate; intros x Hx Hi; destruct x; try (cbn in Hi; discriminate);
+        cbn [Lattice.inst] in *; rewrite Hl; cbn [orb].
+      + (* StringVal *) apply str_eqb_eq in Hi. now subst.
+      + (* Enum *) apply andb_true_iff in Hr. destruct Hr as [Hr Hall]. apply andb_true_iff in Hr. destruct Hr as [Hci Hne].
+        apply length_neqb_nil in Hne. rewrite enum_inst_nonempty in Hi by assumption. apply mem_str_in in Hi.
+        destruct ci; [discriminate|]. rewrite forallb_forall in Hall. exact (Hall _ Hi).
+      + (* Pattern *) apply andb_true_iff in Hr. destruct Hr as [Hne Hall]. apply length_neqb_nil in Hne.
+        apply orb_true_iff in Hi. destruct Hi as [Hi|Hi]; [apply length_eqb_nil in Hi; congruence|].
+        unfold matches_any in *. apply existsb_exists in Hi. destruct Hi as (p & Hp & Hm).
+        rewrite forallb_forall in Hall. specialize (Hall _ Hp). apply mem_str_in in Hall.
+        apply existsb_exists. eauto.
   Qed.
 
   Lemma recv_regexp p : forall b, good b -> recv (TRegexp p) b = true -> sub (TRegexp p) b.
@@ -217,6 +228,9 @@ Section Sound.
     apply Z.leb_le in H, H0. apply Z.leb_le. lia.
   Qed.
 
+  Lemma in_size_eq0 {A} lo hi (l : list A) : in_size lo hi (zlen l) = true -> (hi =? 0) = true -> l = [].
+  Proof. intros H H0. apply (in_size_hi0 lo hi l H). apply Z.eqb_eq in H0. apply Z.leb_le. lia. Qed.
+
   Lemma wf_val_arr vs v : wf_val (VArr vs) = true -> In v vs -> wf_val v = true.
   Proof. cbn. rewrite forallb_forall. auto. Qed.
 
@@ -229,14 +243,14 @@ Section Sound.
       apply andb_true_iff in Hr; destruct Hr as [Hsz Hr]; apply andb_true_iff in Hi; destruct Hi as [Hisz Hi];
       rewrite (in_size_sub _ _ _ _ _ Hsz Hisz); cbn [andb]; apply orb_true_iff; right; apply forallb_forall; intros v Hv;
       pose proof (wf_val_arr _ _ Hx Hv) as Hwv.
-    - (* Array *) assert (Hs : sub e b) by (apply IHe; [assumption|split; assumption|assumption]).
+    - (* Array *) apply orb_true_iff in Hr. destruct Hr as [Hr|Hr]; [rewrite (in_size_eq0 _ _ _ Hisz Hr) in Hv; destruct Hv|].
+      assert (Hs : sub e b) by (apply IHe; [assumption|split; assumption|assumption]).
       apply Hs; [assumption|]. apply orb_true_iff in Hi. destruct Hi as [Hi|Hi].
       + apply is_any_eq in Hi. subst. reflexivity.
       + rewrite forallb_forall in Hi. auto.
-    - (* Tuple *) change (walk ts vs = true) in Hi. destruct ts as [|t0 ts].
-      + apply orb_true_iff in Hr. destruct Hr as [Hr|Hr].
-        * rewrite (in_size_hi0 _ _ _ Hisz Hr) in Hv. destruct Hv.
-        * assert (Hs : sub e TAny) by (apply IHe; [assumption|apply good_any|assumption]). apply Hs; auto.
+    - (* Tuple *) apply orb_true_iff in Hr. destruct Hr as [Hr|Hr]; [rewrite (in_size_eq0 _ _ _ Hisz Hr) in Hv; destruct Hv|].
+      change (walk ts vs = true) in Hi. destruct ts as [|t0 ts].
+      + assert (Hs : sub e TAny) by (apply IHe; [assumption|apply good_any|assumption]). apply Hs; auto.
       + destruct (walk_in (t0 :: ts) ltac:(congruence) vs Hi v Hv) as (t & Ht & Hit).
         apply andb_true_iff in Hwb. destruct Hwb as [_ Hwb]. rewrite forallb_forall in Hr, Hwb, Hnb.
         assert (Hs : sub e t) by (apply IHe; [assumption|split; auto|auto]). apply Hs; assumption.
@@ -283,12 +297,278 @@ Section Sound.
     assert (Hs : sub t b) by (apply IHt; [split; assumption|split; assumption|assumption]). auto.
   Qed.
 
-  Theorem sound_explore : forall a, good a -> forall b, good b -> asg a b = true -> sub a b.
+
+  (* ---- facts about instances of a Struct type ---- *)
+  Notation mname := (@fst str (ty * ty)).
+  Notation sfound es := (found mname es).
+
+  Lemma struct_inst_split ms es :
+    inst (TStruct ms) (VHash es) =
+    forallb (fun m => match hash_get (is_vstr (fst m)) es with
+                      | None => key_optional (fst (snd m))
+                      | Some x => inst (snd (snd m)) x
+                      end) ms &&
+    Z.eqb (zlen (filter (sfound es) ms)) (zlen es).
+  Proof. reflexivity. Qed.
+
+  Lemma struct_required_le ms es :
+    forallb (fun m => match hash_get (is_vstr (fst m)) es with
+                      | None => key_optional (fst (snd m))
+                      | Some x => inst (snd (snd m)) x
+                      end) ms = true ->
+    (length (filter (fun m => negb (key_optional (fst (snd m)))) ms) <= length (filter (sfound es) ms))%nat.
+  Proof.
+    intros H. apply filter_length_impl. intros m Hm Hreq. rewrite forallb_forall in H. specialize (H m Hm).
+    unfold found. destruct (hash_get (is_vstr (fst m)) es); [reflexivity|].
+    rewrite H in Hreq. discriminate.
+  Qed.
+
+  Lemma struct_size ms es : inst (TStruct ms) (VHash es) = true ->
+    in_size (struct_required ms) (zlen ms) (zlen es) = true.
+  Proof.
+    rewrite struct_inst_split. intros H. apply andb_true_iff in H. destruct H as [Hall Hc].
+    apply Z.eqb_eq in Hc. pose proof (struct_required_le ms es Hall) as Hle.
+    pose proof (filter_length_le' (sfound es) ms) as Hle2.
+    unfold in_size, struct_required, zlen in *. apply andb_true_iff. split; apply Z.leb_le; lia.
+  Qed.
+
+  Lemma recv_collection lo hi : forall b, good b -> recv (TCollection lo hi) b = true -> sub (TCollection lo hi) b.
+  Proof.
+    intros b Hgb Hr. destruct b; try (cbn in Hr; discriminate); intros x Hx Hi; destruct x; try (cbn in Hi; discriminate);
+      cbn in Hr; cbn [Lattice.inst] in *.
+    - eapply in_size_sub; eauto.
+    - eapply in_size_sub; eauto.
+    - apply andb_true_iff in Hi. destruct Hi as [Hi _]. eapply in_size_sub; eauto.
+    - apply andb_true_iff in Hi. destruct Hi as [Hi _]. eapply in_size_sub; eauto.
+    - apply andb_true_iff in Hi. destruct Hi as [Hi _]. eapply in_size_sub; eauto.
+    - eapply in_size_sub; [exact Hr|]. apply struct_size. exact Hi.
+  Qed.
+
+  Lemma wf_val_hash es k x : wf_val (VHash es) = true -> In (k, x) es -> wf_val k = true /\ wf_val x = true.
+  Proof.
+    cbn. intros H Hin. apply andb_true_iff in H. destruct H as [_ H]. rewrite forallb_forall in H.
+    specialize (H _ Hin). cbn in H. apply andb_true_iff in H. exact H.
+  Qed.
+
+  Lemma wf_val_keys es : wf_val (VHash es) = true -> distinct_keys (map fst es) = true.
+  Proof. cbn. intros H. apply andb_true_iff in H. tauto. Qed.
+
+  Lemma wf_struct_names ms : wf_ty (TStruct ms) = true -> distinct (map fst ms) = true.
+  Proof. cbn. intros H. apply andb_true_iff in H. tauto. Qed.
+
+  Lemma wf_struct_member ms m : wf_ty (TStruct ms) = true -> In m ms ->
+    key_ok (fst m) (fst (snd m)) = true /\ wf_ty (snd (snd m)) = true.
+  Proof.
+    cbn. intros H Hin. apply andb_true_iff in H. destruct H as [_ H]. rewrite forallb_forall in H.
+    specialize (H _ Hin). apply andb_true_iff in H. exact H.
+  Qed.
+
+  Lemma nounit_struct_member ms m : no_unit (TStruct ms) = true -> In m ms ->
+    no_unit (fst (snd m)) = true /\ no_unit (snd (snd m)) = true.
+  Proof.
+    cbn. intros H Hin. rewrite forallb_forall in H. specialize (H _ Hin). apply andb_true_iff in H. exact H.
+  Qed.
+
+  Lemma key_ok_actual n k : key_ok n k = true -> actual_key k = TStringVal n.
+  Proof.
+    destruct k; cbn; try discriminate.
+    - intros H. apply str_eqb_eq in H. now subst.
+    - destruct k; cbn; try discriminate. intros H. apply str_eqb_eq in H. now subst.
+  Qed.
+
+  Lemma key_ok_wf n k : key_ok n k = true -> wf_ty k = true.
+  Proof. destruct k; cbn; try discriminate; try reflexivity. destruct k; cbn; try discriminate; reflexivity. Qed.
+
+  (* every entry of an instance of a Struct is (name of a declared member, an instance of its value type) *)
+  Lemma struct_entries ms es : wf_ty (TStruct ms) = true -> wf_val (VHash es) = true ->
+    inst (TStruct ms) (VHash es) = true ->
+    forall k x, In (k, x) es -> exists m, In m ms /\ k = VStr (fst m) /\ inst (snd (snd m)) x = true.
+  Proof.
+    intros Hw Hx Hi k x Hin. rewrite struct_inst_split in Hi. apply andb_true_iff in Hi. destruct Hi as [Hall Hc].
+    pose proof (cover mname ms es (wf_struct_names _ Hw) (wf_val_keys _ Hx) Hc) as Hcov.
+    destruct (Hcov k x Hin) as (m & Hm & -> & Hg). exists m. repeat split; [assumption|].
+    rewrite forallb_forall in Hall. specialize (Hall m Hm). now rewrite Hg in Hall.
+  Qed.
+
+  Lemma recv_hash k v lo hi : IH k -> IH v -> good (THash k v lo hi) ->
+    forall b, good b -> recv (THash k v lo hi) b = true -> sub (THash k v lo hi) b.
+  Proof.
+    intros IHk IHv [Hwa Hna] b [Hwb Hnb] Hr. cbn in Hwa, Hna.
+    apply andb_true_iff in Hwa. destruct Hwa as [Hwk Hwv]. apply andb_true_iff in Hna. destruct Hna as [Hnk Hnv].
+    assert (Hgk : good k) by (split; assumption). assert (Hgv : good v) by (split; assumption).
+    destruct b; try (cbn in Hr; discriminate); intros x Hx Hi; destruct x; try (cbn in Hi; discriminate).
+    - (* Hash *) cbn in Hr, Hwb, Hnb. cbn [Lattice.inst] in *.
+      apply andb_true_iff in Hr. destruct Hr as [Hsz Hr].
+      apply andb_true_iff in Hwb. destruct Hwb as [Hwb1 Hwb2]. apply andb_true_iff in Hnb. destruct Hnb as [Hnb1 Hnb2].
+      apply andb_true_iff in Hi. destruct Hi as [Hisz Hi]. rewrite (in_size_sub _ _ _ _ _ Hsz Hisz). cbn [andb].
+      apply orb_true_iff in Hr. destruct Hr as [Hr|Hr]; [rewrite (in_size_eq0 _ _ _ Hisz Hr); reflexivity|].
+      apply andb_true_iff in Hr. destruct Hr as [Hk Hv].
+      rewrite forallb_forall in Hi |- *. intros [k0 x0] Hin. specialize (Hi _ Hin). cbn [fst snd] in *.
+      apply andb_true_iff in Hi. destruct Hi as [Hik Hix]. destruct (wf_val_hash _ _ _ Hx Hin) as [Hwk0 Hwx0].
+      assert (Hsk : sub k b1) by (apply IHk; [assumption|split; assumption|assumption]).
+      assert (Hsv : sub v b2) by (apply IHv; [assumption|split; assumption|assumption]).
+      rewrite (Hsk _ Hwk0 Hik), (Hsv _ Hwx0 Hix). reflexivity.
+    - (* Struct *) cbn in Hr. apply andb_true_iff in Hr. destruct Hr as [Hsz Hall].
+      pose proof (struct_size _ _ Hi) as Hisz. cbn [Lattice.inst].
+      rewrite (in_size_sub _ _ _ _ _ Hsz Hisz). cbn [andb].
+      apply forallb_forall. intros [k0 x0] Hin. cbn [fst snd].
+      destruct (struct_entries _ _ Hwb Hx Hi k0 x0 Hin) as (m & Hm & -> & Him).
+      destruct (wf_val_hash _ _ _ Hx Hin) as [Hwk0 Hwx0].
+      rewrite forallb_forall in Hall. specialize (Hall m Hm). apply andb_true_iff in Hall. destruct Hall as [Hak Hav].
+      destruct (wf_struct_member _ _ Hwb Hm) as [Hko Hwm]. destruct (nounit_struct_member _ _ Hnb Hm) as [Hnk' Hnv'].
+      rewrite (key_ok_actual _ _ Hko) in Hak.
+      assert (Hsk : sub k (TStringVal (fst m))) by (apply IHk; [assumption|split; reflexivity|assumption]).
+      assert (Hsv : sub v (snd (snd m))) by (apply IHv; [assumption|split; assumption|assumption]).
+      rewrite (Hsk (VStr (fst m)) Hwk0) by (cbn; apply str_eqb_refl). rewrite (Hsv _ Hwx0 Him). reflexivity.
+  Qed.
+
+  (* ---- Tuple ---- *)
+  Notation tpairs := (tpairs asg).
+
+  Lemma tpairs_walk ts : forall os vs,
+    (forall t o, In t ts -> In o os -> asg t o = true -> sub t o) ->
+    os <> [] -> wf_val (VArr vs) = true ->
+    tpairs ts os = true -> walk os vs = true -> walk ts vs = true.
+  Proof.
+    induction ts as [|t ts IHts]; intros os vs Hsub Hos Hx Hp Hw; [reflexivity|].
+    destruct os as [|o os]; [congruence|].
+    destruct ts as [|t' ts].
+    - (* single type on the left *)
+      cbn in Hp. apply andb_true_iff in Hp. destruct Hp as [Hp0 Hp].
+      apply walk_all. intros u v [<-|[]] Hv.
+      destruct (walk_in (o :: os) ltac:(congruence) vs Hw v Hv) as (o' & Ho' & Hi).
+      assert (Ha : asg t o' = true).
+      { destruct Ho' as [<-|Ho']; [assumption|]. rewrite forallb_forall in Hp. auto. }
+      apply (Hsub t o' (or_introl eq_refl) Ho' Ha); [apply (wf_val_arr _ _ Hx Hv)|assumption].
+    - destruct os as [|o' os].
+      + (* single type on the right *)
+        change (asg t o && forallb (fun t'0 => asg t'0 o) (t' :: ts) = true) in Hp.
+        apply andb_true_iff in Hp. destruct Hp as [Hp0 Hp].
+        apply walk_all. intros u v Hu Hv.
+        destruct (walk_in [o] ltac:(congruence) vs Hw v Hv) as (o' & [<-|[]] & Hi).
+        assert (Ha : asg u o = true).
+        { destruct Hu as [<-|Hu]; [assumption|]. rewrite forallb_forall in Hp. auto. }
+        apply (Hsub u o Hu (or_introl eq_refl) Ha); [apply (wf_val_arr _ _ Hx Hv)|assumption].
+      + change (asg t o && tpairs (t' :: ts) (o' :: os) = true) in Hp.
+        apply andb_true_iff in Hp. destruct Hp as [Hp0 Hp].
+        destruct vs as [|v vs]; [apply walk_nil_r|].
+        change (inst o v && walk (o' :: os) vs = true) in Hw. apply andb_true_iff in Hw. destruct Hw as [Hw0 Hw].
+        change (inst t v && walk (t' :: ts) vs = true). apply andb_true_iff. split.
+        * apply (Hsub t o (or_introl eq_refl) (or_introl eq_refl) Hp0); [apply (wf_val_arr _ _ Hx (or_introl eq_refl))|assumption].
+        * apply (IHts (o' :: os) vs); [|congruence| |assumption|assumption].
+          -- intros a b Ha Hb. apply Hsub; right; assumption.
+          -- cbn in Hx |- *. apply andb_true_iff in Hx. tauto.
+  Qed.
+
+  Lemma recv_tuple ts g lo hi : Forall IH ts -> good (TTuple ts g lo hi) ->
+    forall b, good b -> recv (TTuple ts g lo hi) b = true -> sub (TTuple ts g lo hi) b.
+  Proof.
+    intros IHts [Hwa Hna] b [Hwb Hnb] Hr. cbn in Hwa, Hna. apply andb_true_iff in Hwa. destruct Hwa as [_ Hwa].
+    rewrite Forall_forall in IHts. rewrite forallb_forall in Hwa, Hna.
+    assert (Hsub : forall t o, In t ts -> good o -> asg t o = true -> sub t o).
+    { intros t o Ht Hgo Ha. apply (IHts t Ht); [split; auto|assumption|assumption]. }
+    destruct b; try (cbn in Hr; discriminate); intros x Hx Hi; destruct x; try (cbn in Hi; discriminate);
+      cbn in Hr, Hwb, Hnb; cbn [Lattice.inst] in *;
+      apply andb_true_iff in Hr; destruct Hr as [Hsz Hr]; apply andb_true_iff in Hi; destruct Hi as [Hisz Hi];
+      rewrite (in_size_sub _ _ _ _ _ Hsz Hisz); cbn [andb]; change (walk ts vs = true).
+    - (* Array *) apply orb_true_iff in Hr. destruct Hr as [Hr|Hr]; [rewrite (in_size_eq0 _ _ _ Hisz Hr); apply walk_nil_r|].
+      apply walk_all. intros t v Ht Hv. rewrite forallb_forall in Hr.
+      apply (Hsub t b Ht (conj Hwb Hnb) (Hr t Ht)); [apply (wf_val_arr _ _ Hx Hv)|].
+      apply orb_true_iff in Hi. destruct Hi as [Hi|Hi]; [apply is_any_eq in Hi; subst; reflexivity|].
+      rewrite forallb_forall in Hi. auto.
+    - (* Tuple *) change (walk ts0 vs = true) in Hi. destruct ts as [|t0 ts]; [reflexivity|].
+      apply orb_true_iff in Hr. destruct Hr as [Hr|Hr]; [rewrite (in_size_eq0 _ _ _ Hisz Hr); apply walk_nil_r|].
+      destruct ts0 as [|o0 os].
+      + (* a tuple type without slots: every slot of the receiver accepts Any *)
+        apply walk_all. intros t v Ht Hv. rewrite forallb_forall in Hr.
+        apply (Hsub t TAny Ht good_any (Hr t Ht)); [apply (wf_val_arr _ _ Hx Hv)|reflexivity].
+      + apply andb_true_iff in Hwb. destruct Hwb as [_ Hwb]. rewrite forallb_forall in Hwb, Hnb.
+        apply (tpairs_walk (t0 :: ts) (o0 :: os) vs); [|congruence|assumption|assumption|assumption].
+        intros t o Ht Ho. apply Hsub; [assumption|split; auto].
+  Qed.
+
+  (* ---- Struct ---- *)
+  Lemma hash_get_in n x es : hash_get (is_vstr n) es = Some x -> In (VStr n, x) es.
+  Proof.
+    induction es as [|[k0 x0] es IHes]; cbn; [discriminate|].
+    destruct (is_vstr n k0) eqn:E.
+    - intros H. injection H as ->. destruct k0; try discriminate. cbn in E. apply str_eqb_eq in E. subst. auto.
+    - auto.
+  Qed.
+
+  Lemma recv_struct ms :
+    Forall (fun m => IH (fst (snd m)) /\ IH (snd (snd m))) ms -> good (TStruct ms) ->
+    forall b, good b -> recv (TStruct ms) b = true -> sub (TStruct ms) b.
+  Proof.
+    intros IHms [Hwa Hna] b [Hwb Hnb] Hr. rewrite Forall_forall in IHms.
+    destruct b; try (cbn in Hr; discriminate); intros x Hx Hi; destruct x; try (cbn in Hi; discriminate).
+    rename ms0 into ms'. cbn in Hr. apply andb_true_iff in Hr. destruct Hr as [Hall Hcnt].
+    pose proof (wf_struct_names _ Hwa) as Hda. pose proof (wf_struct_names _ Hwb) as Hdb.
+    pose proof (struct_entries _ _ Hwb Hx Hi) as Hent.
+    rewrite struct_inst_split in Hi |- *. apply andb_true_iff in Hi. destruct Hi as [Hiall Hicnt].
+    rewrite forallb_forall in Hall, Hiall.
+    apply andb_true_iff. split.
+    - (* every member of ms is satisfied *)
+      apply forallb_forall. intros m Hm. specialize (Hall m Hm).
+      destruct (IHms m Hm) as [IHk IHv].
+      destruct (wf_struct_member _ _ Hwa Hm) as [Hko Hwv]. destruct (nounit_struct_member _ _ Hna Hm) as [Hnk Hnv].
+      destruct (hash_get (is_vstr (fst m)) es) as [x|] eqn:Eg.
+      + apply hash_get_in in Eg. destruct (Hent _ _ Eg) as (m' & Hm' & Hname & Him').
+        injection Hname as Hname.
+        assert (Hf : find_member (fst m) ms' = Some (snd m')).
+        { apply find_member_in; [assumption|]. rewrite Hname. destruct m'; assumption. }
+        rewrite Hf in Hall. destruct (snd m') as [k' v'] eqn:Em'. apply andb_true_iff in Hall. destruct Hall as [_ Hav].
+        destruct (wf_struct_member _ _ Hwb Hm') as [_ Hwv']. destruct (nounit_struct_member _ _ Hnb Hm') as [_ Hnv'].
+        try rewrite Em' in Hwv'; try rewrite Em' in Hnv'; try rewrite Em' in Him'. cbn [snd] in Hwv', Hnv', Him'.
+        assert (Hs : sub (snd (snd m)) v') by (apply IHv; [split; assumption|split; assumption|assumption]).
+        apply Hs; [|assumption]. destruct (wf_val_hash _ _ _ Hx Eg). assumption.
+      + destruct (find_member (fst m) ms') as [[k' v']|] eqn:Ef; [|exact Hall].
+        apply andb_true_iff in Hall. destruct Hall as [Hak _].
+        apply find_member_some in Ef. specialize (Hiall _ Ef). cbn [fst snd] in Hiall. rewrite Eg in Hiall.
+        (* k' accepts undef, so the accepting key type does *)
+        destruct (wf_struct_member _ _ Hwb Ef) as [Hko' _]. destruct (nounit_struct_member _ _ Hnb Ef) as [Hnk' _].
+        cbn [fst snd] in Hko', Hnk'.
+        assert (Hs : sub (fst (snd m)) k').
+        { apply IHk; [split; [apply (key_ok_wf _ _ Hko)|assumption]|split; [apply (key_ok_wf _ _ Hko')|assumption]|assumption]. }
+        unfold key_optional in *. rewrite (nullable_inst rx hs') in Hiall |- *. apply Hs; [reflexivity|assumption].
+    - (* every entry is a member of ms *)
+      apply Z.eqb_eq. unfold zlen. f_equal.
+      apply (count_full mname ms Hda es (wf_val_keys _ Hx)). intros k x Hin.
+      destruct (Hent k x Hin) as (m' & Hm' & -> & _).
+      (* the members of ms' are covered by ms *)
+      assert (Hcnt' : Z.eqb (zlen (filter (found mname (member_entries ms')) ms)) (zlen (member_entries ms')) = true).
+      { unfold member_entries at 2. unfold zlen at 2. rewrite map_length. fold (zlen ms').
+        erewrite filter_ext; [exact Hcnt|]. intros m. unfold found. apply found_member_entries. }
+      pose proof (cover mname ms (member_entries ms') Hda (distinct_member_entries _ Hdb) Hcnt') as Hcov.
+      destruct (Hcov (VStr (fst m')) VUndef) as (m & Hm & Hname & _).
+      { unfold member_entries. apply in_map_iff. exists m'. split; [reflexivity|assumption]. }
+      exists m. split; [assumption|exact Hname].
+  Qed.
+
+  Theorem sound_fo : forall a, good a -> forall b, good b -> asg a b = true -> sub a b.
   Proof.
     induction a using ty_ind'; intros Hga; apply gstep_sound.
     all: try (atomic; fail).
     all: auto using recv_boolean, recv_integer, recv_float, recv_scalar, recv_scalardata, recv_stringsz, recv_stringval,
-      recv_enum, recv_pattern, recv_regexp, recv_array, recv_variant, recv_optional, recv_notundef, recv_type, recv_sensitive.
-    Show.
-  Abort.
+      recv_enum, recv_pattern, recv_regexp, recv_collection, recv_type.
+    - apply recv_array; [exact IHa|assumption].
+    - apply recv_hash; [exact IHa1|exact IHa2|assumption].
+    - apply recv_tuple; [|assumption]. eapply Forall_impl; [|exact H]. intros t Ht. exact Ht.
+    - apply recv_struct; [|assumption]. eapply Forall_impl; [|exact H]. intros m [H1 H2]. split; assumption.
+    - apply recv_variant; [|assumption]. eapply Forall_impl; [|exact H]. intros t Ht. exact Ht.
+    - apply recv_optional; [exact IHa|assumption].
+    - apply recv_notundef; [exact IHa|assumption].
+    - apply recv_sensitive; [exact IHa|assumption].
+  Qed.
 End Sound.
+
+(* the statement about the model of the code (rule enabled), under the syntactic exclusion *)
+Theorem C01_sound_first_order :
+  forall (rx : str -> str -> bool) (a b : ty) (v : value),
+    wf_ty a = true -> wf_ty b = true -> no_unit a = true -> no_unit b = true -> LatticeRule.rule_free a b = true ->
+    wf_val v = true ->
+    asg rx true a b = true -> inst rx true b v = true -> inst rx true a v = true.
+Proof.
+  intros rx a b v Hwa Hwb Hna Hnb Hrf Hv Ha Hi. rewrite LatticeRule.asg_rule_irrelevant in Ha by assumption.
+  exact (sound_fo rx true a (conj Hwa Hna) b (conj Hwb Hnb) Ha v Hv Hi).
+Qed.
